@@ -66,15 +66,26 @@ type loopObj struct {
 	peerPC    *net.UDPConn       // packet peer
 	path      string
 	closed    bool
-	rxOff     int // bytes the peer has written so far (position of the next byte)
+	rxOff     int  // bytes the peer has written so far (position of the next byte)
+	rxDone    int  // bytes handed to the application by completed reads
+	peerGone  bool // the peer closed, shut down or reset its end
 	accepted  []sonic.Conn
 	peerConns []net.Conn
+}
+
+// peerOpenForWrites: the peer end is still there (after a peer close / reset the bytes it had written may be gone with it).
+func (o *loopObj) peerOpenForWrites() bool {
+	if o.kind == "fifo" {
+		return o.peerFd >= 0
+	}
+	return o.peer != nil && !o.peerGone
 }
 
 type loopOp struct {
 	obj   int
 	kind  string // read write timer post accept recvfrom sendto
 	chain bool   // re-issues itself from its callback
+	need  int    // stream reads: bytes that complete the operation (1 for Read, the buffer length for ReadAll; 0: none)
 	rep   bool
 	done  bool
 	t0    time.Time
@@ -90,9 +101,10 @@ type loopWorld struct {
 	nextOp int
 	depth  int
 	tmp    string
-	keep   [][]byte // buffers kept alive
-	tid    int      // OS thread the loop runs on (signals are aimed at it)
-	dead   bool     // a run call had to be broken out of: the IO context is in an unknown state, the script stops
+	keep   [][]byte      // buffers kept alive
+	tid    int           // OS thread the loop runs on (signals are aimed at it)
+	dead   bool          // a run call had to be broken out of: the IO context is in an unknown state, the script stops
+	slept  time.Duration // total of the script's own `sleep` actions (inside callbacks too)
 }
 
 // loopHang is the panic value with which the watchdog breaks out of a RunOne/RunPending that does not return.
@@ -314,6 +326,15 @@ func (lw *loopWorld) exec(f []string) {
 		}
 		_, chained := attr(f, "chain")
 		lw.ops[id] = &loopOp{obj: k, kind: dir, chain: chained}
+		if isRead {
+			lw.ops[id].need = 1
+			if f[0] == "readall" {
+				lw.ops[id].need = n
+			}
+			if n == 0 {
+				lw.ops[id].need = 0
+			}
+		}
 		b := make([]byte, n)
 		lw.keep = append(lw.keep, b)
 		if !isRead {
@@ -328,6 +349,7 @@ func (lw *loopWorld) exec(f []string) {
 				if mm < 0 || mm > len(b) {
 					mm = 0
 				}
+				o.rxDone += mm
 				lw.entered(id, fmt.Sprintf("%s n=%d data=%s", errClass(err), m, hexOrDash(b[:mm])), re)
 			} else {
 				lw.entered(id, fmt.Sprintf("%s n=%d", errClass(err), m), re)
@@ -562,9 +584,27 @@ func (lw *loopWorld) exec(f []string) {
 		if lw.objs[atoi(f[1])] != nil {
 			lw.peer(f)
 		}
+	case "dupfd":
+		// a second descriptor for the object's open file description (what a dup(2), a descriptor passed to another process or a
+		// child started without close-on-exec leaves behind): it outlives the object; epoll registrations belong to the
+		// description, so whatever the object registered must be removed by the object itself
+		o := lw.objs[atoi(f[1])]
+		if o == nil || o.closed || (o.kind != "fifo" && o.kind != "tcp") {
+			return
+		}
+		if d, err := syscall.Dup(lw.rawFd(o)); err == nil {
+			syscall.CloseOnExec(d)
+			o.sab = append(o.sab, d)
+		}
 	case "poll":
 		lw.ev("call poll d=%d", lw.depth)
+		t0, slept0 := time.Now(), lw.slept
 		n, err := lw.ioc.PollOne()
+		if el := time.Since(t0) - (lw.slept - slept0); el > 1500*time.Millisecond && lw.depth == 0 {
+			// PollOne "will return immediately in case there is no event to process": 1.5 s beyond what the callbacks of this
+			// script slept means the loop goroutine was blocked inside the poller
+			fmt.Fprintf(lw.w, "? blocked %d\n", el.Milliseconds())
+		}
 		lw.ev("ret n=%d err=%s", n, errClass(err))
 	case "idlepoll":
 		// a PollOne at a point where the script's author knows nothing can be ready (no peer action, no timer armed, no handler
@@ -635,6 +675,7 @@ func (lw *loopWorld) exec(f []string) {
 		lw.ev("ret n=%d err=%s", code, errClass(err))
 	case "sleep":
 		time.Sleep(time.Duration(atoi(f[1])) * loopTick)
+		lw.slept += time.Duration(atoi(f[1])) * loopTick
 	case "pending":
 		lw.ev("call pending d=%d", lw.depth)
 		lw.ev("ret pending=%d posted=%d disp=%d", lw.ioc.Pending(), lw.ioc.Posted(), lw.ioc.Dispatched)
@@ -913,6 +954,32 @@ func (lw *loopWorld) finish() {
 			}
 		}
 		return c
+	}
+	// before any help: a stream read whose bytes have all arrived (the peer wrote them, no completed read has taken them)
+	// completes by itself within a few polls — a ReadAll that has its buffer full is not left waiting for more
+	settled := false
+	for i := 0; i < 300 && !settled; i++ {
+		before := doneCount()
+		lw.exec([]string{"poll"})
+		settled = doneCount() == before
+	}
+	var owed []string
+	for _, id := range pendingOps() {
+		if !settled {
+			break
+		}
+		op := lw.ops[id]
+		o := lw.objs[op.obj]
+		if op.kind != "read" || op.need <= 0 || o == nil || len(o.sab) != 0 || (o.kind != "tcp" && o.kind != "adapter" && o.kind != "fifo") {
+			continue
+		}
+		if o.rxOff-o.rxDone >= op.need && o.peerOpenForWrites() {
+			owed = append(owed, strconv.Itoa(id))
+		}
+	}
+	if len(owed) > 0 {
+		lw.ev("ret stuck=%s", strings.Join(owed, ","))
+		return
 	}
 	idle, last := 0, doneCount()
 	for round := 0; round < 600 && idle < 12; round++ {
@@ -1560,6 +1627,13 @@ func loopEnum(args []string, w *bufio.Writer) {
 	for _, n := range []int{34, 40, 70} {
 		// ReadAll over packets: every call needs several system calls and still completes inside the call — each completion counts
 		// towards the dispatch limit like any other
+		// one ReadAll that takes k reads: the last packet fills the buffer exactly (k around the dispatch limit)
+		for _, k := range []int{31, 32, 33, 34, 35, 64, 65, 66, 67} {
+			if n == 34 {
+				emit("obj 1 fifo", "peer 1 packetmode", strings.Repeat("peer 1 write 2\n", k), fmt.Sprintf("readall 1 %d op=11", 2*k), "pending", "poll", "pending")
+				emit("obj 1 fifo", "peer 1 packetmode", fmt.Sprintf("readall 1 %d op=11", 2*k), strings.Repeat("peer 1 write 2\n", k), "pending", "poll", "pending")
+			}
+		}
 		// (a packet-mode pipe holds 256 packets here; every chain below finds all its packets queued)
 		if n <= 40 {
 			emit("obj 1 fifo", "peer 1 packetmode", strings.Repeat("peer 1 write 4\n", 2*n+12), fmt.Sprintf("readall 1 8 op=11 chain=%d", n+5), "pending", "poll", "poll", "pending")
@@ -1645,6 +1719,13 @@ func loopEnum(args []string, w *bufio.Writer) {
 	}
 	emit("obj 1 tcp", "writeall 1 200000 op=12", "setdisp 32", "read 1 8 op=11", "setdisp 0", "pending", "peer 1 write 8", "poll", "pending", "idlepoll", "peer 1 drain", "poll", "peer 1 drain", "poll",
 		"peer 1 drain", "poll", "peer 1 drain", "poll", "pending", "idlepoll")
+	// Close with an operation parked while a second descriptor for the same open file description exists (dup): the registration
+	// goes with the Close, so a peer that writes afterwards wakes nobody
+	for _, kind := range []string{"tcp", "fifo"} {
+		emit("obj 1 "+kind, "dupfd 1", "read 1 8 op=11", "pending", "close 1", "pending", "peer 1 write 8", "idlepoll", "idlepoll", "pending")
+		emit("obj 1 "+kind, "dupfd 1", "read 1 8 op=11", "cancel 1", "pending", "peer 1 write 8", "idlepoll", "close 1", "idlepoll", "pending")
+	}
+	emit("obj 1 tcp", "dupfd 1", "read 1 8 op=11", "setdisp 32", "write 1 5 op=12", "setdisp 0", "pending", "close 1", "pending", "peer 1 write 8", "idlepoll", "idlepoll", "pending")
 	emit("obj 1 packet", "recvfrom 1 16 op=11", "close 1", "pending", "poll", "pending")
 	emit("obj 1 listener", "accept 1 op=11", "close 1", "pending", "poll", "pending")
 	// 5. two completions harvested by the same epoll_wait: the handler that runs first closes / cancels the other
@@ -1658,6 +1739,11 @@ func loopEnum(args []string, w *bufio.Writer) {
 			"scheduled 1", "poll", "pending")
 		emit("obj 1 timer", "prog 12 "+act+" 1", "sched 1 once 1 op=11", "post op=12", "sleep 3", "poll", "pending", "scheduled 1", "poll", "pending")
 	}
+	// ... or cancels and re-arms the other timer far in the future: its event of this batch is stale; the poll that meets it returns at
+	// once (PollOne never waits) and a third timer that comes due meanwhile fires on time
+	emit("obj 1 timer", "obj 2 timer", "obj 3 timer", "prog 11 tcancel 2 ; sched 2 once 300 op=+", "prog 12 tcancel 1 ; sched 1 once 300 op=+", "sched 1 once 1 op=11", "sched 2 once 1 op=12",
+		"sched 3 once 8 op=13", "sleep 3", "poll", "pending", "sleep 8", "poll", "pending", "tcancel 1", "tcancel 2", "pending")
+	emit("obj 1 timer", "obj 2 tcp", "prog 12 tcancel 1 ; sched 1 once 300 op=+", "sched 1 once 1 op=11", "read 2 4 op=12", "peer 2 write 4", "sleep 3", "poll", "pending", "poll", "tcancel 1", "pending")
 	// ... or cancels and re-arms the other timer: its event of this batch is stale and must not lose the new schedule
 	for _, re := range []string{"once 1", "once 3", "rep 1"} {
 		// (a one-shot re-arm is left for the drain phase, which waits for it: it must fire)
@@ -1770,6 +1856,12 @@ func loopEnum(args []string, w *bufio.Writer) {
 		emit("obj 1 "+kind, "obj 2 tcp", "prog 12 peer 1 steal", "recvfrom 1 16 op=11", "read 2 4 op=12", "peer 2 write 4", "peer 1 send 0", "poll", "pending",
 			"peer 1 send 8", "poll", "pending")
 		emit("obj 1 "+kind, "prog 12 peer 1 steal", "recvfrom 1 16 op=11", "post op=12", "peer 1 send 0", "poll", "pending", "peer 1 send 8", "poll", "poll", "pending")
+	}
+	// 5e. datagram sockets with a read in flight and a write parked at the dispatch limit, both ready in one event: each completes
+	for _, kind := range []string{"mpeer", "packet"} {
+		emit("obj 1 "+kind, "recvfrom 1 16 op=11", "setdisp 32", "sendto 1 8 op=12", "setdisp 0", "pending", "peer 1 send 8", "poll", "pending", "poll", "peer 1 recv", "pending")
+		emit("obj 1 "+kind, "setdisp 32", "sendto 1 8 op=12", "setdisp 0", "recvfrom 1 16 op=11", "peer 1 send 8", "pending", "poll", "pending", "poll", "peer 1 recv", "pending")
+		emit("obj 1 "+kind, "prog 11 recvfrom 1 16 op=+", "recvfrom 1 16 op=11", "setdisp 32", "sendto 1 8 op=12", "setdisp 0", "peer 1 send 8", "poll", "pending", "peer 1 send 4", "poll", "peer 1 recv", "pending")
 	}
 	// 6. what the callback of a repeating schedule does to its own timer (the schedule continues unless the callback
 	// cancelled / closed the timer or left another schedule armed), including a nested poll in which the new schedule fires
